@@ -38,6 +38,7 @@ func main() {
 		vlib.Group{Name: "empty", Gen: genEmpty},
 		vlib.Group{Name: "large", Gen: genLarge},
 		vlib.Group{Name: "rawlong", Gen: genRawLong},
+		vlib.Group{Name: "same-object", Gen: genSame},
 	)
 	vlib.Main("C04", groups...)
 }
